@@ -117,6 +117,7 @@ class BaseSamples:
             log_prior=self.log_prior,
             log_q=self.log_q,
             xp=np,
+            dtype=dtype,
         )
 
     def to_namespace(self, xp, dtype: Any | str | None = None):
@@ -383,11 +384,10 @@ class BaseSamples:
         """Create a Samples object from a BaseSamples object."""
         xp = kwargs.pop("xp", samples.xp)
         device = kwargs.pop("device", samples.device)
-        dtype = kwargs.pop("dtype", samples.dtype)
-        if dtype is not None:
-            dtype = resolve_dtype(dtype, xp)
-        else:
-            dtype = convert_dtype(samples.dtype, xp)
+        dtype = kwargs.pop("dtype", None)
+        if dtype is None:
+            dtype = samples.dtype
+        dtype = convert_dtype(dtype, xp)
         return cls(
             x=samples.x,
             log_likelihood=samples.log_likelihood,
@@ -396,6 +396,7 @@ class BaseSamples:
             parameters=samples.parameters,
             xp=xp,
             device=device,
+            dtype=dtype,
             **kwargs,
         )
 
@@ -567,6 +568,7 @@ class Samples(BaseSamples):
             log_evidence_error=self.log_evidence_error
             if self.log_evidence_error is not None
             else None,
+            dtype=convert_dtype(self.dtype, np),
         )
 
     def to_dataframe(self, include: list[str] | None = None) -> "pd.DataFrame":
@@ -715,6 +717,7 @@ class SMCSamples(BaseSamples):
             log_evidence_error=self.log_evidence_error
             if self.log_evidence_error is not None
             else None,
+            dtype=convert_dtype(self.dtype, np),
         )
 
     def __getitem__(self, idx):
